@@ -89,6 +89,35 @@ def operator_receives_operand_list(ctx, facts, roles, t, cfg, K, result_clause=T
 
 
 
+def _clean_on_helper_view(ctx, roles, cfg):
+    """(True, helpers) when the program with the private helper functions of the table functions inlined has no dirty
+    S1 position at all."""
+    from . import inline
+    from .opfacts import Unit
+    from .core import Facts
+    try:
+        path = ctx.fact_paths[(cfg, "jsonlogic_rs", "debug")]
+        cands = set(inline.candidates(path))
+        helpers = set()
+        for fk in roles.op_fns:
+            helpers |= (Unit(roles, fk, extended=True).keys & cands)
+        helpers -= set(roles.op_fns) | set(roles.sinks) | set(roles.evaluators)
+        if not helpers:
+            return (False, [])
+        P._CALLABLE_CACHE.clear()
+        P._INDEX_CACHE.clear()
+        view = inline.load_view(path, sorted(helpers))
+        vroles = Roles(view)
+        _, vres = P.analyse(vroles)
+        ok = len(vres) >= 25 and all(v != "dirty" for _, v, _ in vres)
+        return (ok, sorted(helpers))
+    except Exception:
+        return (False, [])
+    finally:
+        P._CALLABLE_CACHE.clear()
+        P._INDEX_CACHE.clear()
+
+
 def run(ctx):
     ctx.explanation = __doc__
     ctx.rule = "instances = S1 sink call sites (each with its tag set), table functions (reachability), operation evaluators (shape); non-trivial = a sink whose tag set needed interprocedural flow through closures/adaptors or a case split"
@@ -99,8 +128,19 @@ def run(ctx):
         roles = Roles(facts)
         p, results = P.analyse(roles)
         ctx.floor("S1 sink sites (%s)" % cfg, len(results), 25)
+        view_clean = None
         for s, verdict, how in results:
             key = "%s bb%d (%s)" % (s.ident(), s.bi, cfg)
+            if verdict == "dirty" and not ctx.inline_set:
+                # A site in a helper function is examined context-insensitively (parameter tags = join over all call
+                # sites, and the case split on the operand's kind stops at the operator's own body).  The same program
+                # with the operator's private helpers inlined at their call sites has the helper's guards in the operator:
+                # if *every* S1 position of that program is clean (or discharged by the case split), K1 holds of the
+                # program — the site is discharged.  Otherwise it is reported on the program as written.
+                if view_clean is None:
+                    view_clean = _clean_on_helper_view(ctx, roles, cfg)
+                if view_clean[0]:
+                    verdict, how = "discharged", "on the view of the program with the private helpers %s inlined at their call sites every S1 position is clean" % ", ".join(h.split("::", 1)[1] for h in view_clean[1])
             if verdict == "dirty":
                 bad = sorted(t for t in s.tags if not P.RULEISH(t))
                 ctx.fail("K1.S1", s.ident(),
